@@ -39,7 +39,17 @@ def cases(tier, seed, nlayers, nforce, rep):
     for k in range(nlayers):
         items, opts = G.gen_layer(rng, tier)
         mode = "exact" if k % 2 else "float"
-        out.append((I.run_layer(items, opts, mode), {"kind": "layer", "items": items, "opts": opts, "mode": mode}))
+        meta = {"kind": "layer", "items": items, "opts": opts, "mode": mode}
+        if k % 8 == 5:
+            # a "twin" layer is laid out first in the same process: the same targets, widths and options, but other items are stubs (all are labels /
+            # the flags are inverted) — a layer's result depends on which of ITS items are stubs, and on nothing a previous call left behind
+            twin = [(t, w, (not sflag) if k % 16 == 5 else False) for t, w, sflag in items]
+            meta["twin"] = twin
+            try:
+                I.run_layer(twin, opts, mode)
+            except Exception:
+                pass
+        out.append((I.run_layer(items, opts, mode), meta))
     rng = rng_for(seed, "layout-force")
     for k in range(nforce):
         labels, span = G.gen_labels(rng, tier)
@@ -88,6 +98,11 @@ def run(pid, tier, seed, replay=None):
         import impl_layout as I
         m = r["case"]
         if m["kind"] == "layer":
+            if m.get("twin"):
+                try:
+                    I.run_layer([tuple(x) for x in m["twin"]], m["opts"], m["mode"])
+                except Exception:
+                    pass
             line = I.run_layer([tuple(x) for x in m["items"]], m["opts"], m["mode"])
         elif m["kind"] == "history-layer":
             res = I.run_history([tuple(o) for o in m["ops"]], m["mode"], want_layer_lines=True)
